@@ -59,6 +59,7 @@ func init() {
 			"with per-call options (regex compiler, defaults, multi-error, exclusions, authentication outcome, generator customizer callback) " +
 			"and 2-6 calls run by 2-12 goroutines, 1-3 calls each, 1-2 rounds on freshly loaded documents. Every case runs in a child of the -race harness; " +
 			"verdicts are compared with the same call run alone on a freshly loaded document — for fresh-process cases alone means in two FURTHER fresh processes that run the calls sequentially in forward and reverse order (process-wide caches survive a reloaded document) —; the document's canonical JSON is compared before/after. " +
+			"declared response headers (a required integer header, a pattern-constrained one, a definition named Content-Type) inline or as one component response referenced by three operations, responses with / without / with ill-typed header values × {fresh, warm}; array defaults whose elements are objects (or arrays of objects) receiving nested defaults from the item schema, through ValidateRequest and VisitJSON × {fresh, warm}; " +
 			"history / reuse: ONE goroutine performing every call of a case three times in a row on the same document / routers / Validator, in the given and in reverse order (all kinds + re-validation, the two regex compilers on one pattern, the path-item family for 0/3/4/5 path-level parameters, the schema-list family, generation for eight recursive types; every 12th warm case of the random stream) — deterministic, no schedule involved; " +
 			"A case is non-trivial when at least two goroutines run, or one goroutine performs every call at least twice (the driver reports operation kinds, kind pairs, raced cells, slice shapes, registries, reuse).",
 		Exhaustive: true,
